@@ -44,12 +44,35 @@ impl AsValue for DV {
     }
 }
 
+/// Log of every key passed to `Object::get` on ANY object of a document tree (the root and every
+/// nested object), switched on around one observation (C16: keys asked of nested objects).
+pub static GET_LOG_ON: std::sync::atomic::AtomicBool = std::sync::atomic::AtomicBool::new(false);
+pub static GET_LOG: Mutex<BTreeSet<String>> = Mutex::new(BTreeSet::new());
+
+pub fn get_log_start() {
+    let mut g = GET_LOG.lock().unwrap_or_else(|e| e.into_inner());
+    g.clear();
+    GET_LOG_ON.store(true, std::sync::atomic::Ordering::SeqCst);
+}
+
+pub fn get_log_take() -> BTreeSet<String> {
+    GET_LOG_ON.store(false, std::sync::atomic::Ordering::SeqCst);
+    let mut g = GET_LOG.lock().unwrap_or_else(|e| e.into_inner());
+    std::mem::take(&mut *g)
+}
+
 impl Object for DObj {
     // `find` is deliberately NOT overridden: the crate's default implementation is under test.
 
     /// First entry with that key.
     #[inline]
     fn get(&self, key: &str) -> Option<Value<'_>> {
+        if GET_LOG_ON.load(std::sync::atomic::Ordering::Relaxed) {
+            let mut g = GET_LOG.lock().unwrap_or_else(|e| e.into_inner());
+            if !g.contains(key) {
+                g.insert(key.to_owned());
+            }
+        }
         self.0
             .iter()
             .find(|(k, _)| k == key)
